@@ -411,3 +411,52 @@ def partial_format(call):
         else:
             out = out.replace('{}', '\0', 1)
     return out.replace('\0', '{}')
+
+
+RE_FUNCS = ('search', 'match', 'fullmatch', 'sub', 'findall', 'split', 'finditer', 'subn')
+
+
+def regex_uses(model, func):
+    """[(how, pattern, call, subject-args)] for every regular-expression use in `func`: `re.<how>(<literal>, ..)` and `<compiled>.<how>(..)` where
+    <compiled> is a local, module-level or class-level name bound to `re.compile(<literal>)`.  `how` is 're.search', 're.match', ...;
+    subject-args are the call's arguments after the pattern.  Raises AnalysisError when a pattern is not a literal."""
+    out = []
+    defs = local_defs(func.node)
+    for c in shallow_calls(func.node):
+        f = c.func
+        if not isinstance(f, ast.Attribute) or f.attr not in RE_FUNCS:
+            continue
+        if dotted(f.value) == 're':
+            if not c.args:
+                continue
+            pat = const_str(c.args[0])
+            if pat is None and isinstance(c.args[0], ast.Name):
+                pat = _compiled_pattern(model, func, defs, c.args[0].id, raw=True)
+            if pat is None:
+                raise AnalysisError('%s: regex is not a string literal: %s' % (func.qualname, norm(c)))
+            out.append(('re.' + f.attr, pat, c, list(c.args[1:])))
+        elif isinstance(f.value, ast.Name) or (isinstance(f.value, ast.Attribute) and isinstance(f.value.value, ast.Name)):
+            name = f.value.id if isinstance(f.value, ast.Name) else f.value.attr
+            pat = _compiled_pattern(model, func, defs, name)
+            if pat is not None:
+                out.append(('re.' + f.attr, pat, c, list(c.args)))
+    return out
+
+
+def _compiled_pattern(model, func, defs, name, raw=False):
+    cands = []
+    d = unique_def(defs, name)
+    if d is not None:
+        cands.append(d)
+    v = model.module_bindings.get((func.module.name, name))
+    if v is not None:
+        cands.append(v)
+    k = func.owner_class
+    if k is not None and name in k.consts:
+        cands.append(k.consts[name])
+    for v in cands:
+        if raw and const_str(v) is not None:
+            return const_str(v)
+        if isinstance(v, ast.Call) and dotted(v.func) == 're.compile' and v.args and const_str(v.args[0]) is not None:
+            return const_str(v.args[0])
+    return None
